@@ -35,6 +35,9 @@ import BGV
 #print axioms BGV.C03_hasEdgeL
 #print axioms BGV.C03_add_present_keeps_label
 #print axioms BGV.C03_recreate_shows_new_label
+#print axioms BGV.C03_und_hasEdgeL
+#print axioms BGV.C03_und_add_present_keeps_label
+#print axioms BGV.C03_und_recreate_shows_new_label
 
 -- C04
 #print axioms BGV.C04_dir_inv_reachable
